@@ -31,6 +31,13 @@ OUTSIDE = {
  "r21-C11-v2": "Routes(path, \"*\") is nowhere said to be a method string of Routes, and the other half needs a refused declaration (third review)",
  "r21-C03-v1": "needs a body write that fails below: whether that counts as 'written' is C13's to say (third review; C13 and C14 report it)",
  "r21-C03-v2": "needs a ReturnHandler mapped during the request: none in C03 (C14, whose subject it is, reports it - as C14-v2 of the first round)",
+ "r22-C01-v1": "needs AutoHead: C01 registers flat route sets without it (C11 and C10 report it)",
+ "r22-C07-v1": "a verdict cache inside the header matcher: shows with two constrained headers whose values read alike side by side - C09, whose subject the gate is, generates such pairs and reports it",
+ "r22-C07-v2": "method tables created while serving: a crash under concurrency only (C05 reports it: concurrent map writes)",
+ "r22-C09-v1": "a scratch slice shared by the requests that pass one matcher: wrong verdicts under concurrency only (C05 reports it)",
+ "r22-C17-v2": "a pooled encode buffer handed back too early: another request's document under concurrency only (C05 reports it)",
+ "r22-C05-v1": "needs a file system that refuses to open files under load (EMFILE): a request that is refused differs from the one served alone by the fault itself; faults of the file system are not generated in C05",
+ "r22-C05-v2": "changes the stack part of the development page only: C05 compares the line that shows the panic value, because the stack below it differs between a goroutine of the round and the serial run anyway",
  "r20-C07-v2": "needs AutoHead: C07 declares flat routes without it (C11 and C10 report it)",
  "r18-C01-v1": "needs AutoHead: C01 registers flat route sets without it (C11 and C10 report it)",
  "r18-C05-v1": "a memo inside the injector keyed by struct type: applied by value and by pointer (C04, which does both, reports it without any concurrency)",
